@@ -146,6 +146,13 @@ func Cleanup() {
 }
 
 func (s *State) log(kind, path, to string) error {
+	if s.Root == nil {
+		// a harness that keeps no tree of its own (its oracle stubs the calls it expects) met another call of
+		// package os: that call sees an empty file system
+		q := s.quiet
+		Reset()
+		s.quiet = q
+	}
 	if s.quiet > 0 {
 		return nil
 	}
